@@ -447,15 +447,6 @@ func findingClass(ci *caseInfo) string {
 	if !ok || e.Resp == nil {
 		return ""
 	}
-	if e.Def.T != nil && e.Def.T.Kind == "user" && nameAttrOf(d, e.Def.T) == "" {
-		for _, om := range s.Methods {
-			for _, oe := range om.Errors {
-				if om != m && oe.T != nil && oe.T.Kind == "user" && oe.T.Ref == e.Def.T.Ref && oe.Name != e.Def.Name {
-					return "error-type-shared-across-methods"
-				}
-			}
-		}
-	}
 	// the level that supplies the mapping declares the error with another type
 	if lt, ok := mappingLevelType(d, s, m, ci.ErrName); ok {
 		a, _ := json.Marshal(lt)
